@@ -233,6 +233,21 @@ pub fn gen_c14(ctx: &Ctx, rng: &mut Rng, out: &mut Vec<String>) {
             // swapping the two populations
             if d == 2 && ["f2", "fst", "pi-xy", "king", "r0", "r1"].contains(k) { out.push(format!("st.rel\tswap\t{k}\t{sh}\t{bs}\t-")); }
         }
+        // the same transformations observed through one `sfs stat` invocation computing every applicable statistic together, in a
+        // random order (statistics sharing an invocation share the runner's preprocessing: normalisation, precision, column order)
+        if i % 4 == 0 && ks.len() > 1 {
+            let mut order: Vec<&str> = ks.clone(); rng.shuffle(&mut order);
+            let c = *rng.pick(&[4.0f64, 0.25, 10.0]);
+            let scaled: Vec<f64> = data.iter().map(|x| x * c).collect();
+            let mut mono = data.clone(); mono[0] = rng.range(0, 100000) as f64; mono[n - 1] = rng.range(0, 100000) as f64;
+            for dd in [&data, &scaled, &mono] { out.push(format!("st.cmd\t{}\t{}\t{sh}\t{}", order.join(","), *rng.pick(&[12usize, 15]), bits(dd))); }
+            // pairs (a count-based next to a frequency-based statistic), both orders
+            if d == 2 {
+                for pair in [["pi-xy", "f2"], ["fst", "pi-xy"], ["sum", "fst"], ["f2", "s"]] {
+                    if pair.iter().all(|k| ks.contains(k)) { for dd in [&data, &scaled] { out.push(format!("st.cmd\t{}\t12\t{sh}\t{}", pair.join(","), bits(dd))); } }
+                }
+            }
+        }
         if d == 3 { out.push(format!("st.rel\tf3f2\tf3\t{sh}\t{bs}\t-")); }
         if d == 4 { out.push(format!("st.rel\tf4f2\tf4\t{sh}\t{bs}\t-")); }
     }
